@@ -83,7 +83,7 @@ def parse_type(t):
             return r
         if tk in ('List', 'Option'):
             return (tk, atom())
-        if tk in ('Str', 'Int', 'Nat', 'Bool', 'FrameD', 'Callpoint', 'DLine', 'ExcType'):
+        if tk in ('Str', 'Int', 'Nat', 'Bool', 'FrameD', 'Callpoint', 'DLine', 'ExcType', 'StrObj'):
             return (tk,)
         raise ValueError('unknown type %r in %r' % (tk, t))
 
@@ -361,6 +361,8 @@ class FnTr:
                     return '(DLine.str %s)' % code, ('Str',)
                 if t == ('Str',):
                     return code, t
+                if t == ('StrObj',):
+                    self.bad(e, 'str() of an arbitrary object may raise: only `try: return str(x)` is translated')
                 self.bad(e, 'str() of a value of type %s' % show_type(t))
             if fn.id == 'isinstance' and len(e.args) == 2 and isinstance(e.args[1], ast.Name) and e.args[1].id == 'str':
                 code, t = self.expr(e.args[0], env)
@@ -464,7 +466,7 @@ class FnTr:
                         b, tb = '(some %s)' % b, ta
                     else:
                         self.bad(e, 'comparison of %s with %s' % (show_type(ta), show_type(tb)))
-                if ta[0] in ('FrameD', 'Callpoint', 'DLine', 'ExcType'):
+                if ta[0] in ('FrameD', 'Callpoint', 'DLine', 'ExcType', 'StrObj'):
                     self.bad(e, 'comparison of objects')
                 return '(%s %s %s)' % (a, '==' if isinstance(op, ast.Eq) else '!=', b)
             if isinstance(op, (ast.Lt, ast.LtE, ast.Gt, ast.GtE)) and ta == tb and ta in (('Int',), ('Nat',)):
@@ -621,6 +623,23 @@ class FnTr:
                 if n not in env:
                     pass        # a local of the body: not visible after the loop (a later read is refused as unbound)
             return self.join_let(mod, code) + self.block(rest, env, tail)
+        if isinstance(st, ast.Try):
+            # the ONE raising operation of the subset: `str(x)` of a declared `StrObj` (an arbitrary object: its
+            # `__str__` returns a str or raises).  Accepted only as  try: return str(x) / except Exception: <block>
+            # (no else / finally): the value when there is one, else the handler followed by the rest.
+            ok = (len(st.body) == 1 and isinstance(st.body[0], ast.Return) and not st.orelse and not st.finalbody
+                  and len(st.handlers) == 1 and isinstance(st.handlers[0].type, ast.Name)
+                  and st.handlers[0].type.id == 'Exception' and st.handlers[0].name is None and tail is None)
+            v = st.body[0].value if ok else None
+            if not (ok and isinstance(v, ast.Call) and isinstance(v.func, ast.Name) and v.func.id == 'str'
+                    and len(v.args) == 1 and not v.keywords and self.R == ('Str',)):
+                self.bad(st, 'try statement (only `try: return str(<StrObj>)` / `except Exception:` is translated)')
+            code, t = self.expr(v.args[0], env)
+            if t != ('StrObj',):
+                self.bad(st, 'try around str() of a value of type %s, which cannot raise' % show_type(t))
+            hbody = [x for x in st.handlers[0].body if not isinstance(x, ast.Pass)]
+            rest_code = self.block(hbody + rest, env, None)
+            return 'match StrObj.str? %s with\n| some v => v\n| none =>\n%s' % (code, ind(rest_code))
         self.bad(st, 'statement %s' % type(st).__name__)
 
     def join_let(self, mod, code):
